@@ -2,6 +2,7 @@ package rules
 
 import (
 	"fmt"
+	"go/types"
 	"strings"
 
 	"verif/internal/absint"
@@ -149,6 +150,49 @@ func fieldVal(ex *absint.Exec, st *absint.State, v absint.Val, prog *load.Progra
 		return nil
 	}
 	return st.Resolve(ex.LoadLeaf(st, ex.FieldPtr(p, idx)))
+}
+
+// fieldIsByteArray reports the length of a [N]byte field (0: the field is not a byte array, e.g. a slice).
+func fieldIsByteArray(prog *load.Program, pkg, typ string, idx int) int {
+	p := prog.ByPath[pkg]
+	if p == nil {
+		return 0
+	}
+	o := p.Types.Scope().Lookup(typ)
+	if o == nil {
+		return 0
+	}
+	st, ok := o.Type().Underlying().(*types.Struct)
+	if !ok || idx < 0 || idx >= st.NumFields() {
+		return 0
+	}
+	if a, ok := st.Field(idx).Type().Underlying().(*types.Array); ok {
+		if b, ok := a.Elem().Underlying().(*types.Basic); ok && b.Kind() == types.Uint8 {
+			return int(a.Len())
+		}
+	}
+	return 0
+}
+
+// storeBytesField puts the byte string t into a field that is either a []byte (a slice over fresh storage) or a [N]byte.
+func storeBytesField(ex *absint.Exec, st *absint.State, p *absint.Ptr, prog *load.Program, pkg, typ string, idx int, t *sym.Term, name string) {
+	if n := fieldIsByteArray(prog, pkg, typ, idx); n > 0 {
+		ex.WriteArray(st, ex.FieldPtr(p, idx), t, n)
+		return
+	}
+	ex.StoreLeaf(st, ex.FieldPtr(p, idx), ex.BytesToSlice(st, t, name), 0)
+}
+
+// loadBytesField reads such a field back as a byte string (nil: not a byte string).
+func loadBytesField(ex *absint.Exec, st *absint.State, p *absint.Ptr, prog *load.Program, pkg, typ string, idx int) *sym.Term {
+	if n := fieldIsByteArray(prog, pkg, typ, idx); n > 0 {
+		return ex.ReadArray(st, ex.FieldPtr(p, idx), n)
+	}
+	sv, _ := st.Resolve(ex.LoadLeaf(st, ex.FieldPtr(p, idx))).(*absint.SliceVal)
+	if sv == nil {
+		return nil
+	}
+	return ex.SliceBytes(st, sv)
 }
 
 // symFn / symPt / symBytes / symLen build the symbols the abstract interpreter gives to named parameters.
